@@ -53,21 +53,41 @@ Proof. exact parse_gcov_no_panic. Qed.
 (* ---------------------------------------------------------------- JSON form *)
 
 (* From the tree serde_json produced: if serde accepts every number (u32 fields, counters through
-   deserialize_counter) the result is, in order, every file object with at least one line entry, once,
-   with exactly its lines / branches / functions (a later entry for the same line or name stands). *)
+   deserialize_counter) the result is, in order, every file object with at least one line entry, once, with
+   line -> sum of the counts of its entries clamped at 2^64-1, line -> the branch outcomes of its entries
+   concatenated in entry order (taken iff count > 0), function -> (start line, count > 0), a later entry for
+   the same demangled name standing. *)
 Theorem C09_json_sound :
   forall t d, deser t = Ok d -> parse_gcov_gz_tree t = Ok (conv d) /\ jreport_spec d (conv d).
 Proof. exact gcov_json_sound. Qed.
 Theorem C09_json_deser : forall t d, deser t = Ok d -> Forall2 file_rel t d.
 Proof. exact deser_rel. Qed.
 
+(* the clause in the property's words, for any line n of a file object: the line is reported iff it has an entry;
+   its count is the clamped sum over its entries; its branch vector is the concatenation over its entries, in
+   entry order, of "branch count positive", and it has none iff no entry has a branch *)
+Theorem C09_json_line_entries :
+  forall f c n, jfile_spec f c ->
+  let es := entries_of n (dfile_lines f) in
+  c_lines c !! n = (match es with [] => None | _ => Some (N.min (sum_N (map dl_count es)) U64_MAX) end) /\
+  (es <> [] -> default [] (c_branches c !! n) = concat (map (fun l => map (fun x => 0 <? x) (dl_branches l)) es)) /\
+  (c_branches c !! n = None <-> Forall (fun l => dl_branches l = []) es).
+Proof. exact jfile_spec_entries. Qed.
 (* with distinct line numbers in a file object, each listed line has exactly its count, and its branch
    vector is, in order, "branch count positive" (no vector for a line without branches) *)
 Theorem C09_json_branch_positive :
   forall f c l, jfile_spec f c -> NoDup (map dl_number (dfile_lines f)) -> l ∈ dfile_lines f ->
-  c_lines c !! dl_number l = Some (dl_count l) /\
+  c_lines c !! dl_number l = Some (N.min (dl_count l) U64_MAX) /\
   c_branches c !! dl_number l = match dl_branches l with [] => None | b => Some (map (fun x => 0 <? x) b) end.
 Proof. exact jfile_spec_line. Qed.
+(* regression: the fold used before the fix of C20/gcov-json-line-in-several-functions (the last entry of a line
+   stood) differs from the present one on the two-functions-on-one-line witness: 3 and [t;f;f;f] against 0 and [f;f] *)
+Theorem C09_json_last_entry_fold_differs :
+  let new := fold_left add_line witness_two_functions_one_line (∅, ∅) in
+  let old := fold_left add_line_last_wins witness_two_functions_one_line (∅, ∅) in
+  new.1 !! 1 = Some 3 /\ old.1 !! 1 = Some 0 /\
+  new.2 !! 1 = Some [true; false; false; false] /\ old.2 !! 1 = Some [false; false].
+Proof. exact old_fold_differs. Qed.
 (* with distinct function names, each function has its start line and is executed iff its count is non-zero *)
 Theorem C09_json_fun_exec :
   forall f c g, jfile_spec f c -> NoDup (map df_name (dfile_funs f)) -> g ∈ dfile_funs f ->
@@ -123,12 +143,13 @@ Example C09_ex_overflow_hyp : gdigits (bs "18446744073709551616") = true /\ two6
 Proof. vm_compute. split; [reflexivity|discriminate]. Qed.
 Definition ex_tree : list jfile :=
   [mkJFile (bs "a.c") [mkJFun (bs "f()") (JU 1) (JF false 5629499534213120 (-50))]
-     [mkJLine (JU 1) (JU 7) [JU 2; JF false 0 (-1074)]; mkJLine (JU 2) (JF false 4503599627370496 11) []];
-   mkJFile (bs "nolines.h") [] []].
+     [mkJLine (JU 1) (JU 7) [JU 2; JF false 0 (-1074)]; mkJLine (JU 2) (JF false 4503599627370496 11) [];
+      mkJLine (JU 1) (JU 5) []; mkJLine (JU 2) (JF false 4503599627370496 11) [JU 0]; mkJLine (JU 1) (JU 0) [JU 9]];
+   mkJFile (bs "nolines.h") [mkJFun (bs "g") (JU 2) (JU 1)] []].
 Example C09_ex_deser : exists d, deser ex_tree = Ok d /\
   map (fun '(n, c) => (n, cov_to_l c)) (conv d) =
-  [(bs "a.c", ([(1, 7); (2, 9223372036854775808)], [(1, [true; false])], [(bs "f()", (1, true))]))].
-Proof. eexists. split; vm_compute; reflexivity. Qed.
+  [(bs "a.c", ([(1, 12); (2, U64_MAX)], [(1, [true; false; true]); (2, [false])], [(bs "f()", (1, true))]))].
+Proof. eexists. split; [vm_compute; reflexivity|]. vm_compute. reflexivity. Qed.
 (* the old witness of the 2^64 clamp (binary64 2^64 = 2^52 * 2^12) is now rejected; 2^64 - 2048 is the largest float accepted *)
 Example C09_ex_two64_rejected :
   jnum_floor (JF false 4503599627370496 12) = Some two64 /\ counter_of_number (JF false 4503599627370496 12) = Err /\
